@@ -60,6 +60,10 @@ pub struct Scn {
     pub seed: u64,
     /// repeat the first wiring on the real OS RNG to compare fresh randomness (C07)
     pub repeat_os_rng: bool,
+    /// the -o path already holds this many bytes of an older, unrelated file
+    pub prior_output_len: Option<usize>,
+    /// the decoy entry of the keyring has a mistyped checksum (well-formed, parses, unusable)
+    pub decoy_bad_checksum: bool,
 }
 
 pub struct B1;
@@ -80,7 +84,20 @@ pub fn world(seed: u64) -> World {
     World { names, sks: [r.arr32(), r.arr32(), r.arr32()], pws, salts: [r.arr32(), r.arr32(), r.arr32()], file_pw: format!("file-{}", r.below(1000000)) }
 }
 
-fn keyring_for(w: &World, op: &Op, pos: &SenderPos) -> String {
+fn keyring_for(w: &World, op: &Op, pos: &SenderPos, bad_decoy: bool) -> String {
+    let t = keyring_for_inner(w, op, pos);
+    if !bad_decoy {
+        return t;
+    }
+    // corrupt the checksum of the decoy (carol): flip the last character of its PublicKey value
+    let good = rk::encode_pk(&rp::x25519_base(&w.sks[2]));
+    let mut bad = good.clone().into_bytes();
+    let l = bad.len() - 1;
+    bad[l] = if bad[l] == b'A' { b'B' } else { b'A' };
+    t.replace(&good, &String::from_utf8(bad).unwrap())
+}
+
+fn keyring_for_inner(w: &World, op: &Op, pos: &SenderPos) -> String {
     let spec = |i: usize, with_priv: bool| KeySpec { name: w.names[i].clone(), sk: w.sks[i], password: if with_priv { Some(w.pws[i].clone()) } else { None }, salt: w.salts[i] };
     match op {
         // the sender's keyring: own private key, recipient and a decoy public
@@ -227,7 +244,17 @@ impl Family for B1 {
             1 => SenderPos::Last,
             _ => SenderPos::Absent,
         };
-        Scn { op, material, plain: Plain { len, fill_seed: rng.next_u64() }, sender_pos, wirings, seed: rng.next_u64(), repeat_os_rng: rng.chance(1, 3) }
+        Scn {
+            op,
+            material,
+            plain: Plain { len, fill_seed: rng.next_u64() },
+            sender_pos,
+            wirings,
+            seed: rng.next_u64(),
+            repeat_os_rng: rng.chance(1, 3),
+            prior_output_len: if rng.chance(1, 3) { Some(len + 200 + rng.usize_below(100000)) } else { None },
+            decoy_bad_checksum: rng.chance(1, 3),
+        }
     }
 
     fn execute(&self, s: &Scn) -> RunOut {
@@ -269,7 +296,7 @@ impl Family for B1 {
             _ => input,
         };
         let valid = s.material == Material::Valid;
-        let kr_text = keyring_for(&w, &s.op, &s.sender_pos);
+        let kr_text = keyring_for(&w, &s.op, &s.sender_pos, s.decoy_bad_checksum);
         let mut results: Vec<(i32, Option<Vec<u8>>, String)> = vec![];
         let mut produced_files: Vec<Vec<u8>> = vec![];
         let mut runs: Vec<(Wiring, Option<u64>)> = s.wirings.iter().map(|wi| (wi.clone(), Some(s.seed ^ 0x5eed))).collect();
@@ -281,6 +308,9 @@ impl Family for B1 {
             let sb = Sandbox::new("b1");
             sb.write("keyring.txt", kr_text.as_bytes());
             sb.write("input.bin", &input);
+            if let (Some(n), true) = (s.prior_output_len, wi.out_opt) {
+                sb.write("output.bin", &crate::rng::fill(n, s.seed ^ 0x01d));
+            }
             let mut inv = build_inv(s, &w, wi, "input.bin", "output.bin");
             inv.entropy_seed = *ent;
             if let Stdin::Pipe(_) = inv.stdin {
@@ -430,6 +460,16 @@ impl Family for B1 {
         if s.repeat_os_rng {
             let mut t = s.clone();
             t.repeat_os_rng = false;
+            c.push(t);
+        }
+        if s.prior_output_len.is_some() {
+            let mut t = s.clone();
+            t.prior_output_len = None;
+            c.push(t);
+        }
+        if s.decoy_bad_checksum {
+            let mut t = s.clone();
+            t.decoy_bad_checksum = false;
             c.push(t);
         }
         c
